@@ -488,6 +488,29 @@ theorem ptdpsOf_wf (buffer : Bytes) (llp : Bool) :
     · simp only [fragOf, mkPtdp, slice_length]; omega
 
 
+/-! ### normal traffic: names used by the C10 theorems -/
+
+/-- the packets, none of them low-latency -/
+def normal (pkts : List Bytes) : List (Bytes × Bool) := pkts.map fun b => (b, false)
+def ptdps (pkts : List Bytes) : List PTDP.State := datapktsToPtdp (normal pkts)
+/-- the PTDP encodings, in order -/
+def encs (pkts : List Bytes) : List Bytes := (ptdps pkts).map encB
+/-- the byte stream -/
+def stream (pkts : List Bytes) : Bytes := (encs pkts).flatten
+
+theorem ptdps_wf' (pkts : List Bytes) : ∀ p ∈ ptdps pkts, PTDP_WF p ∧ p.low_latency = false := by
+  intro p hp
+  simp only [ptdps, datapktsToPtdp, normal, List.flatMap_map, List.mem_flatMap] at hp
+  obtain ⟨b, _, hb⟩ := hp
+  exact ptdpsOf_wf b false p hb
+
+theorem encap_inv (pkts : List Bytes) (L sid : Nat) (hL : 0 < L) :
+    ∃ cur out, datapktsToPtfr (normal pkts) L sid = .ok (cur, out) ∧
+      EncInv L sid (encs pkts) cur out := by
+  obtain ⟨cur, out, h, inv⟩ := encFold_inv L sid hL (ptdps pkts) (ptdps_wf' pkts) [] (newPtfr L sid) []
+    (by simp) (encInv_init L sid hL)
+  exact ⟨cur, out, h, by simpa [encs] using inv⟩
+
 /-- consecutive L-byte pieces put together again -/
 theorem pieces_concat (S : Bytes) (L n : Nat) :
     ((List.range n).map (fun k => slice S (k * L) ((k + 1) * L))).flatten = S.take (n * L) := by
